@@ -126,6 +126,20 @@ fn expected_acks(rest: &[u8], mode: u8) -> (Vec<u8>, Vec<u8>, Vec<u8>) {
     if mode == 1 {
         return (Vec::new(), rest.to_vec(), Vec::new());
     }
+    if mode == 4 {
+        // length-prefixed frames, no acknowledgements: complete frames are processed, the rest is left
+        let mut processed = Vec::new();
+        let mut pos = 0usize;
+        while pos < rest.len() {
+            let len = rest[pos] as usize;
+            if pos + 1 + len > rest.len() {
+                break;
+            }
+            processed.extend_from_slice(&rest[pos..pos + 1 + len]);
+            pos += 1 + len;
+        }
+        return (Vec::new(), processed, rest[pos..].to_vec());
+    }
     let mut acks = Vec::new();
     let mut processed = Vec::new();
     let mut start = 0usize;
